@@ -103,6 +103,7 @@ class VolumeMesh(Mesh):
                 self._interior_faces.append(F)
 
     def _compute_interior_boundary_vertices(self):
+        self.vertices.delete_attribute("border") # recomputed from scratch, see SurfaceMesh
         self._is_vertex_on_border = self.vertices.create_attribute("border",bool)
         for iF in self.boundary_faces:
             for v in self.faces[iF]:
@@ -116,6 +117,7 @@ class VolumeMesh(Mesh):
                 self._interior_vertices.append(v)
 
     def _compute_interior_boundary_edges(self):
+        self.edges.delete_attribute("border") # recomputed from scratch, see SurfaceMesh
         self._is_edge_on_border = self.edges.create_attribute("border", bool)
         for iF in self.boundary_faces:
             n = len(self.faces[iF])
